@@ -682,7 +682,10 @@ def _real_embedded(fn_name, make, route, args_of=None):
         res["route"] = "initializer" if len(inits) == 1 else "?"
         res["tensor"] = W.tensor_typed(inits[0]) if inits else None
     if fn_name != "arg_default":
-        res["prop"] = peek("Var._get_value", lambda: _obs_array(var._get_value()))
+        try:
+            res["prop"] = peek("Var._get_value", lambda: _obs_array(var._get_value()))
+        except ValueError:
+            res["prop"] = {"dtype": "<no propagated value>", "shape": [], "data": []}
     return ("ok", res)
 
 
@@ -790,7 +793,11 @@ def run_embed_correspondence(ck, q):
         elif "ok" not in m:
             bad = f"real accepts, model raises {m.get('err')}"
         elif m["prop_modelled"]:
-            o = peek("Var._get_value", lambda: _obs_array(r[1]._get_value()))
+            try:
+                o = peek("Var._get_value", lambda: _obs_array(r[1]._get_value()))
+            except ValueError as e:  # "No propagated value associated with this Var."
+                o = UNOBS
+                bad = f"no propagated value ({e}), model {str(m['prop'])[:60]}"
             mp = m["prop"]
             if o is not UNOBS:
                 data = mp["words"] if mp["dtype"] != "str" else [list("".join(map(chr, s)).encode("utf-8")) for s in mp["strs"]]
